@@ -866,6 +866,13 @@ impl Inner {
     fn process_channel_message(&mut self, channel_id: u16, message: IoLoopMessage) -> Result<()> {
         match message {
             IoLoopMessage::ConnectionClose(buf) => {
+                // What the channels were handed before the close was requested goes out
+                // in front of it - also while back-pressure keeps us from listening to
+                // them, or when the close simply gets here first.
+                let ids: Vec<u16> = self.chan_slots.iter().map(|(id, _)| *id).collect();
+                for id in ids {
+                    self.handle_channel_readable(id)?;
+                }
                 self.outbuf.append(buf);
                 self.seal_writes();
             }
